@@ -25,9 +25,10 @@ CORE = "torchsde/_core/"
 
 
 class V:
-    def __init__(self, name, relpath, old, new, expect="fire", rule=None, count=1):
+    def __init__(self, name, relpath, old, new, expect="fire", rule=None, count=1, more=()):
         self.name, self.relpath, self.old, self.new = name, relpath, old, new
         self.expect, self.rule, self.count = expect, rule, count
+        self.more = tuple(more)          # further (old, new) edits of the same file, each occurring exactly once
 
 
 def _load_variants(pid):
@@ -43,19 +44,25 @@ def _violation_set(rep):
 
 
 def _run_one(args):
-    pid, root, v_name, relpath, old, new, count = args
+    pid, root, v_name, relpath, old, new, count, more = args
     from .check import run_property
     src_path = os.path.join(root, relpath)
     with open(src_path, encoding="utf-8") as fh:
         src = fh.read()
     if src.count(old) != count:
         return v_name, "skipped", f"anchor text occurs {src.count(old)} time(s), expected {count}", None
+    for o2, n2 in more:
+        if src.count(o2) != 1:
+            return v_name, "skipped", f"anchor text `{o2[:40]}` occurs {src.count(o2)} time(s), expected 1", None
     tmp = tempfile.mkdtemp(prefix="tsverif-variant-")
     try:
         shutil.copytree(os.path.join(root, "torchsde"), os.path.join(tmp, "torchsde"),
                         ignore=shutil.ignore_patterns("__pycache__"))
         with open(os.path.join(tmp, relpath), "w", encoding="utf-8") as fh:
-            fh.write(src.replace(old, new))
+            edited = src.replace(old, new)
+            for o2, n2 in more:
+                edited = edited.replace(o2, n2)
+            fh.write(edited)
         try:
             code, rep = run_property(pid, tmp, "quick", 0, write=False, quiet=True)
             # normalise construct keys (they contain no absolute paths, only relpaths)
@@ -85,7 +92,7 @@ def run_selftest(pid, root, seed, jobs=None):
     order = list(variants)
     rnd.shuffle(order)
     jobs = jobs or min(16, os.cpu_count() or 4)
-    work = [(pid, root, v.name, v.relpath, v.old, v.new, v.count) for v in order]
+    work = [(pid, root, v.name, v.relpath, v.old, v.new, v.count, v.more) for v in order]
     results = {}
     with concurrent.futures.ProcessPoolExecutor(max_workers=jobs) as ex:
         for name, status, msg, viols in ex.map(_run_one, work):
